@@ -160,6 +160,7 @@ package xmss
 
 //@ func Verify
 //@   props C14 C04 C06 C15 C16
+//@   pure
 //@   panics "invalid signature size. Height<=254"
 //@   panics "invalid signature type"
 //@   panics "Invalid signature size"
@@ -193,3 +194,110 @@ package xmss
 //@ lemma xmss.L_desc_bytes_roundtrip[C11,C09] : forall b0, b1 :: 0 <= b0 && b0 <= 255 && 0 <= b1 && b1 <= 255 ==> ((b0 / 16) % 16) * 16 + (b0 % 16) % 16 == b0 && ((b1 / 16) % 16) * 16 + ((2 * (b1 % 16)) / 2) % 16 == b1
 //@ lemma xmss.L_addr_xmss_valid_own_invalid_other[C11] : forall b0, b1 :: 0 <= b0 && b0 <= 255 && 0 <= b1 && b1 <= 255 && b0 / 16 == 0 && b1 / 16 == 0 ==> (b0 / 16 == 0 && b1 / 16 == 0) && b0 != 16
 //@ lemma xmss.L_addr_dilithium_valid_own_invalid_other[C11] : forall b1 :: 0 <= b1 && b1 <= 255 ==> 16 == 16 && !(16 / 16 == 0 && b1 / 16 == 0)
+
+// ---- signing side: WOTS, key generation, index automaton (C02), traversal state as an abstraction (C08) ----
+
+//@ pred idxOf(sk) := sk[0]*16777216 + sk[1]*65536 + sk[2]*256 + sk[3]
+//@ pred paramsOK(p) := p.n == 32 && p.k == 2 && 4 <= p.h && p.h <= 30 && p.h % 2 == 0 && wotsOK(p.wotsParams) && p.wotsParams.w == 16
+//@ pred bdsShape(b, h) := len(b.stack) == (h+1)*32 && len(b.stackLevels) == h+1 && len(b.auth) == h*32 && len(b.keep) == (h/2)*32 && len(b.retain) == 32 && !isnil(b.auth)
+//@ pred xmssInv(x) := len(x.sk) == 132 && paramsOK(x.xmssParams) && x.xmssParams.h == x.height && bdsShape(x.bdsState, x.height) && idxOf(x.sk) <= spec.pow2(x.height)
+//@ aset bdsAll := $.stack, $.stackOffset, $.stackLevels, $.auth, $.keep, $.treeHash, $.retain, $.nextLeaf
+
+//@ func NewBDSState
+//@   trusted "appends freshly allocated *TreeHashInst to a slice of pointers (outside the subset); contract = shapes of the allocated buffers, confirmed by the label run which executes the real function for every height"
+//@   requires 4 <= height && height <= 30 && n == 32 && k == 2
+//@   ensures bdsShape(result, height)
+
+//@ func treeHashSetup
+//@   trusted "BDS traversal internals: behaviour decided by the bounded label run (C01); frame and purity by the effects back end"
+//@   pure
+//@   requires paramsOK(xmssParams) && bdsShape(bdsState, xmssParams.h) && len(node) >= 32 && len(skSeed) >= 32 && len(pubSeed) >= 32 && len(addr) >= 3
+//@   assigns node[0:32], bdsAll(bdsState)
+
+//@ func bdsRound
+//@   trusted "BDS traversal internals: behaviour decided by the bounded label run (C01); frame and purity by the effects back end"
+//@   pure
+//@   requires paramsOK(params) && bdsShape(bdsState, params.h) && len(skSeed) >= 32 && len(pubSeed) >= 32 && leafIdx < spec.pow2(params.h)
+//@   assigns bdsAll(bdsState)
+
+//@ func bdsTreeHashUpdate
+//@   trusted "BDS traversal internals: behaviour decided by the bounded label run (C01); frame and purity by the effects back end"
+//@   pure
+//@   requires paramsOK(params) && bdsShape(bdsState, params.h) && len(skSeed) >= 32 && len(pubSeed) >= 32
+//@   assigns bdsAll(bdsState)
+
+//@ func getSeed
+//@   requires n == 32 && len(skSeed) >= 32
+//@   ensures addr[0] == old(addr[0]) && addr[1] == old(addr[1]) && addr[2] == old(addr[2]) && addr[3] == old(addr[3]) && addr[4] == old(addr[4])
+//@   assigns seed, *addr
+
+//@ func expandSeed
+//@   requires n == 32 && len <= 133 && len(outSeeds) >= len*n && len(inSeeds) >= 32
+//@   assigns outSeeds
+//@   loop 1 invariant 0 <= i && i <= len
+
+//@ func wotsSign
+//@   requires wotsOK(params) && len(sig) >= params.keySize && len(msg) >= 32 && len(sk) >= 32 && len(pubSeed) >= 32
+//@   assigns sig, *addr
+//@   loop 1 invariant 0 <= i && i <= params.len1
+//@   loop 2 invariant 0 <= i && i <= params.len2
+//@   loop 2 invariant forall k_ :: 0 <= k_ && k_ < params.len1 + i ==> baseW[k_] <= params.w - 1
+//@   loop 3 invariant 0 <= i && i <= params.len
+//@   loop 3 invariant forall k_ :: 0 <= k_ && k_ < params.len ==> baseW[k_] <= params.w - 1
+
+//@ func wOTSPKGen
+//@   requires wotsOK(wOTSParams) && len(pk) >= wOTSParams.keySize && len(sk) >= 32 && len(pubSeed) >= 32
+//@   assigns pk, *addr
+//@   loop 1 invariant 0 <= i && i <= wOTSParams.len
+
+//@ func genLeafWOTS
+//@   requires xmssParams.n == 32 && wotsOK(xmssParams.wotsParams) && len(leaf) >= 32 && len(skSeed) >= 32 && len(pubSeed) >= 32
+//@   assigns leaf[0:32], *lTreeAddr, *otsAddr
+
+//@ func XMSSFastGenKeyPair
+//@   props C02 C08 C09 C06
+//@   requires paramsOK(xmssParams) && len(pk) == 64 && len(sk) == 132 && bdsShape(bdsState, xmssParams.h)
+//@   ensures[C02,C08,C09] idxOf(sk) == 0
+//@   assigns pk, sk, bdsAll(bdsState)
+
+//@ func xmssFastUpdate
+//@   props C02 C08
+//@   requires paramsOK(params) && len(sk) == 132 && bdsShape(bdsState, params.h)
+//@   panics "index too high" when newIdx >= spec.pow2(params.h)
+//@   panics "cannot rewind" when newIdx < spec.pow2(params.h) && newIdx < idxOf(sk)
+//@   ensures[C02] result == 0 && idxOf(sk) == newIdx
+//@   assigns sk[0:4], bdsAll(bdsState)
+//@   loop 1 invariant currentIdx <= j && j <= newIdx && currentIdx == old(idxOf(sk)) && numElems == spec.pow2(params.h)
+
+//@ func xmssFastSignMessage
+//@   props C02 C08 C01 C06
+//@   requires paramsOK(params) && len(sk) == 132 && bdsShape(bdsState, params.h) && idxOf(sk) < spec.pow2(params.h)
+//@   ensures[C02] idxOf(sk) == old(idxOf(sk)) + 1
+//@   ensures[C02] !iserr(result1) ==> len(result0) == 2180 + 32*params.h && idxOf(result0) == old(idxOf(sk))
+//@   assigns sk[0:4], bdsAll(bdsState)
+//@   loop 1 invariant 0 <= i && i <= n && n == 32 && idxOf(sigMsg) == idx
+
+//@ func initializeTree
+//@   props C02 C08 C09
+//@   requires desc.height <= 30
+//@   panics "For BDS traversal, H - K must be even, with H > K >= 2!" when desc.height <= 2 || desc.height % 2 == 1
+//@   ensures[C02,C08,C09] xmssInv(result) && idxOf(result.sk) == 0 && result.height == desc.height && result.hashFunction == desc.hashFunction && result.seed[0:48] == seed[0:48] && result.desc == desc
+
+//@ func XMSS.SetIndex
+//@   props C02 C08
+//@   requires xmssInv(x)
+//@   panics "index too high" when newIndex >= spec.pow2(x.height)
+//@   panics "cannot rewind" when newIndex < spec.pow2(x.height) && newIndex < idxOf(x.sk)
+//@   ensures[C02] xmssInv(x) && idxOf(x.sk) == newIndex
+//@   assigns x.sk[0:4], bdsAll(x.bdsState)
+
+//@ func XMSS.GetIndex
+//@   inline
+
+//@ func XMSS.Sign
+//@   props C02 C08 C01
+//@   requires xmssInv(x)
+//@   panics "index too high" when idxOf(x.sk) >= spec.pow2(x.height)
+//@   ensures[C02] xmssInv(x) && idxOf(x.sk) == old(idxOf(x.sk)) + 1
+//@   ensures[C02] !iserr(result1) ==> len(result0) == 2180 + 32*x.height && idxOf(result0) == old(idxOf(x.sk))
+//@   assigns x.sk[0:4], bdsAll(x.bdsState)
